@@ -339,18 +339,30 @@ impl EnvD {
         book.xfs.clear();
         let mut next_custom = 164u16;
         for c in &self.fmts {
-            let custom = rng.chance(1, 3);
             let (builtin, text) = match c {
                 'd' => (*rng.pick(&[14u16, 15, 20, 22, 45, 47]), "yyyy\\-mm\\-dd"),
                 't' => (46, "[h]:mm:ss"),
                 _ => (*rng.pick(&[0u16, 1, 2, 4, 9, 49]), "0.00"),
             };
-            if custom {
-                book.formats.push((next_custom, text.to_string()));
-                book.xfs.push(next_custom);
-                next_custom += 1;
-            } else {
-                book.xfs.push(builtin);
+            match rng.below(4) {
+                0 => {
+                    book.formats.push((next_custom, text.to_string()));
+                    book.xfs.push(next_custom);
+                    next_custom += 1;
+                }
+                1 => {
+                    // a FORMAT record may redefine a built-in / locale slot (ids below 164): the definition in the file
+                    // wins over the built-in table. The slots are ones whose built-in class differs from the new one
+                    // and that the plain built-in choice above never uses.
+                    let slot = match c {
+                        'd' => *rng.pick(&[3u16, 10, 23, 63]),
+                        't' => *rng.pick(&[5u16, 18, 37]),
+                        _ => *rng.pick(&[16u16, 17, 21]),
+                    };
+                    book.formats.push((slot, text.to_string()));
+                    book.xfs.push(slot);
+                }
+                _ => book.xfs.push(builtin),
             }
         }
     }
@@ -933,8 +945,44 @@ fn run_book(b: &Book, drv: &mut Driver, substreams: Option<Vec<Vec<u8>>>) -> Vec
     if rng.chance(1, 4) {
         book.trailing = vec![0; *rng.pick(&[1usize, 4, 100, 4096])];
     }
-    let bytes = book.to_bytes(&mut rng);
     let n = b.sheets.len();
+    // physical order of the sheet substreams: any permutation of the tab order (BOUNDSHEET8 keeps the tab order,
+    // lbPlyPos points at each substream)
+    if n >= 2 && substreams.is_none() && rng.chance(1, 2) {
+        let mut order: Vec<usize> = (0..n).collect();
+        while order.iter().enumerate().all(|(i, o)| i == *o) {
+            rng.shuffle(&mut order);
+        }
+        book.substream_order = Some(order);
+    }
+    // container: usually the workbook stream alone; sometimes with a decoy stream — a second `Workbook` stream
+    // (an embedded object's) AFTER the real one in directory order, or a `Book` stream before / after it.
+    // The reader must take the first stream entry named `Workbook` (Model/Cfb.lean), `Book` only when there is none.
+    let bytes = match if substreams.is_none() { rng.below(8) } else { 7 } {
+        mode @ 0..=2 => {
+            let wb = book.workbook_stream(&mut rng);
+            let mut decoy_book = XlsBook::new();
+            for name in NAMES.iter().take(n.max(1)) {
+                let mut sh = XlsSheet::new(name);
+                sh.cells.push(XlsCell::new(0, 0, CellV::Number(-12345.5)));
+                sh.cells.push(XlsCell::new(7, 3, CellV::Label("decoy".into(), None)));
+                decoy_book.sheets.push(sh);
+            }
+            let decoy = decoy_book.workbook_stream(&mut rng);
+            let mut opts = verif_harness::cfbw::CfbOpts::random(&mut rng);
+            opts.dir_shuffle = false;
+            if wb.len() >= 4096 {
+                opts.sector_size = 512;
+            }
+            let streams: Vec<(String, Vec<u8>)> = match mode {
+                0 => vec![("Workbook".into(), wb), ("Workbook".into(), decoy)],
+                1 => vec![("Book".into(), decoy), ("Workbook".into(), wb)],
+                _ => vec![("Workbook".into(), wb), ("Book".into(), decoy)],
+            };
+            verif_harness::cfbw::write_cfb(&streams, &opts, &mut rng)
+        }
+        _ => book.to_bytes(&mut rng),
+    };
     let impls: Vec<String> = match guarded(|| match Xls::new(Cursor::new(bytes)) {
         Err(e) => vec![err_class(&e); n],
         Ok(mut wb) => (0..n)
@@ -1436,7 +1484,7 @@ fn main() {
          in 65536x256 with bias to the first/last row and column, values: doubles of 9 classes, strings of 3 alphabets, booleans, 8 errors; \
          layout: NUMBER / RK word of any of the 4 kinds that denotes the number / invalid RK word (fallback) / MULRK joins / LABEL 8|16 bit / \
          LABELSST / BOOLERR / FORMULA(+STRING, blank-string type 3) / ignorable records before cells and between FORMULA and STRING; \
-         XF table with date and duration formats, 1904 flag, SST with CONTINUE cuts) encoded by the Lean encoder, wrapped by xlsw+cfbw with a \
+         XF table with date and duration formats given by built-in ids, custom FORMAT ids >= 164 or FORMAT records redefining a built-in slot, 1904 flag, SST with CONTINUE cuts, sheet substreams stored in any permutation of the tab order, in 3 files of 8 a decoy stream in the container: a second `Workbook` stream after the real one, or a `Book` stream before / after it) encoded by the Lean encoder, wrapped by xlsw+cfbw with a \
          random container layout, read by Xls::new + worksheet_range, compared with Lean `dec` and with the bounding-box/value oracle. \
          B: one workbook per run (3 in thorough) with a shared string table of 65536 + k strings and LABELSST cells on both sides of the 16-bit boundary. \
          MULRK runs, consecutive RK and NUMBER records repeat numbers (same bytes) under XFs of different format classes and keep an XF over different numbers (adjacent and at distance 2). \
